@@ -216,6 +216,8 @@ def seq_view(eng, v):
     run = eng.run
     if isinstance(v, SeqView):
         return v
+    if isinstance(v, GeneratorCall):
+        return eager_generator(eng, v)
     if isinstance(v, TupleVal):
         items = v.items
         return SeqView(z3.IntVal(len(items)), lambda i, items=items: _concrete_nth(eng, items, i), concrete=list(items))
@@ -2515,8 +2517,6 @@ def comprehension(eng, node, frame, kind):
         raise _U("nested comprehension generators")
     gen = node.generators[0]
     src = eng.eval(gen.iter, frame)
-    if isinstance(src, GeneratorCall):
-        raise _U("comprehension over generator call")
     view = seq_view(eng, src)
     if view.concrete is not None:
         items = []
@@ -2740,6 +2740,17 @@ def exec_for(eng, s, frame):
     if isinstance(src, GeneratorCall):
         return for_over_generator(eng, s, src, frame)
     view = seq_view(eng, src)
+    return exec_for_view(eng, s, frame, view)
+
+
+def exec_for_view(eng, s, frame, view):
+    run = eng.run
+    from .symexec import BreakSig, ContinueSig, PathEnd, Frame
+    if run.yield_stack and len(s.body) == 1 and isinstance(s.body[0], ast.Expr) and isinstance(s.body[0].value, ast.Yield) \
+            and isinstance(s.target, ast.Name) and isinstance(s.body[0].value.value, ast.Name) and s.body[0].value.value.id == s.target.id and not s.orelse:
+        # `for x in xs: yield x`  ==  `yield from xs`
+        list_extend(eng, run.yield_stack[-1], view)
+        return
     # the executor's own contract may give an invariant for this loop
     inv = None
     k_ord = None
@@ -2932,12 +2943,77 @@ def exec_while(eng, s, frame):
     eng.exec_block(s.orelse, frame)
 
 
+MUTATORS = {"append", "extend", "insert", "pop", "remove", "clear", "sort", "reverse", "update", "setdefault", "popitem", "add", "discard",
+            "appendleft", "popleft"}
+
+
+def generator_is_pure(fnode):
+    """no stores to attributes/items and no mutating method calls: then running the generator to completion
+    before its consumer (eager evaluation) is observationally the same as interleaving"""
+    for n in ast.walk(fnode):
+        if isinstance(n, (ast.Attribute, ast.Subscript)) and isinstance(n.ctx, (ast.Store, ast.Del)):
+            return False
+        if isinstance(n, ast.Call) and isinstance(n.func, ast.Attribute) and n.func.attr in MUTATORS:
+            return False
+        if isinstance(n, (ast.Global, ast.Nonlocal)):
+            return False
+    return True
+
+
+def eager_generator(eng, gc):
+    from .symexec import Frame, ReturnSig, SeqView
+    run = eng.run
+    fi = gc.fi
+    if not generator_is_pure(fi.node):
+        raise _U(f"generator {fi.key} has side effects that interleave with its consumer (not inlined)")
+    if run.merge_depth > 0 or run.merge_only:
+        raise _U("generator consumed inside a merged expression")
+    run.assumptions_used.add("side-effect-free generators are evaluated eagerly (equivalent to lazy evaluation for pure generators)")
+    modframe = Frame({}, module=fi.module, cls=fi.cls)
+    bound = eng.bind_args(fi.node, gc.args, gc.kwargs, modframe, what=fi.key)
+    frame = Frame(bound, module=fi.module, cls=fi.cls, fi=fi)
+    frame.qualname = fi.qualname
+    if fi.cls is not None and fi.node.args.args:
+        frame.self_val = bound[fi.node.args.args[0].arg]
+    out = new_list(eng)
+    run.yield_stack.append(out)
+    run.depth += 1
+    run.inline_stack.append(fi.key)
+    try:
+        try:
+            eng.exec_block(fi.node.body, frame)
+        except ReturnSig:
+            pass
+    finally:
+        run.yield_stack.pop()
+        run.depth -= 1
+        run.inline_stack.pop()
+    return seq_view(eng, TV(out.term))
+
+
 def for_over_generator(eng, s, gc, frame):
-    raise _U("for over generator call (not inlined yet)")
+    view = eager_generator(eng, gc)
+    holder = "__gen_%d" % id(s)
+    frame.vars[holder] = view
+    s2 = ast.For(target=s.target, iter=ast.Name(id=holder, ctx=ast.Load()), body=s.body, orelse=s.orelse, lineno=s.lineno, col_offset=0)
+    eng._for_alias = getattr(eng, "_for_alias", {})
+    eng._for_alias[id(s2)] = s
+    return exec_for_view(eng, s, frame, view)
 
 
 def exec_yield(eng, node, frame):
-    raise _U("yield outside an inlined generator")
+    run = eng.run
+    if not run.yield_stack:
+        raise _U("yield outside an inlined generator")
+    out = run.yield_stack[-1]
+    if isinstance(node, ast.Yield):
+        v = eng.eval(node.value, frame) if node.value is not None else TV_NONE
+        out.arr = z3.Store(out.arr, out.length, eng.to_tv(v).val())
+        out.length = out.length + 1
+        return TV_NONE
+    src = eng.eval(node.value, frame)
+    list_extend(eng, out, seq_view(eng, src))
+    return TV_NONE
 
 
 def exec_with(eng, s, frame):
